@@ -409,29 +409,35 @@ def run_cut_sweep(case):
     logs = []
     tmp = tempfile.mkdtemp(prefix="c07-", dir=TMP_ROOT)
     try:
-        full = os.path.join(tmp, "full.log.gz")
-        r_fresh = do_run(case, full, logs, "fresh gz file")
-        check_model("fresh gz file", r_fresh, build_model(case), logs)
-        with gzip.open(full, "rb") as f:
+        is_gz = case["sink"] == "gz"
+        ext = ".log.gz" if is_gz else ".log"
+        full = os.path.join(tmp, "full" + ext)
+        r_fresh = do_run(case, full, logs, "fresh file")
+        check_model("fresh file", r_fresh, build_model(case), logs)
+        with (gzip.open(full, "rb") if is_gz else open(full, "rb")) as f:
             lines = [l for l in f.read().split(b"\n") if l.strip()]
-        members = [gzip.compress(l + b"\n", compresslevel=6, mtime=want["mtime"]) for l in lines]
-        k = (len(members) - want["from_end"]) % len(members)
-        done = set()
-        for l in lines[:k]:
-            rec = json.loads(l)
-            if rec[0] == "I" and rec[2].get("_packed"): done.add(tuple(rec[1]))
+        # plain files: a "member" is a line with its line feed
+        members = [gzip.compress(l + b"\n", compresslevel=6, mtime=want["mtime"]) if is_gz else l + b"\n" for l in lines]
+        k = (len(members) - want["from_end"]) % len(members)     # from_end == 0: the first record
         _, _, _, tids = ids_of(case)
-        model = build_model(case, rerun={t for t in tids if t not in done})
+        def model_for(n_complete):
+            done = set()
+            for l in lines[:n_complete]:
+                rec = json.loads(l)
+                if rec[0] == "I" and rec[2].get("_packed"): done.add(tuple(rec[1]))
+            return build_model(case, rerun={t for t in tids if t not in done})
+        model, model_whole = model_for(k), model_for(k + 1)
         head, member = b"".join(members[:k]), members[k]
         cuts = range(1, len(member)) if want.get("step", 1) == 1 else sorted(set(range(1, len(member), want["step"])) |
                                                                              {p for p in range(1, len(member)) if member[p - 1] == 0x0a})
-        path = os.path.join(tmp, "result.log.gz")
+        path = os.path.join(tmp, "result" + ext)
         for p in cuts:
             with open(path, "wb") as f: f.write(head + member[:p])
             what = f"restored, killed {p} of {len(member)} bytes into member {k} (previous byte 0x{member[p - 1]:02x})"
             cut_logs = []
             r_rest = do_run(case, path, cut_logs, what, stamp=2)
-            check_model(what, r_rest, model, cut_logs)
+            # a plain record that lacks nothing but its line feed is complete (coba documents and repairs exactly that)
+            check_model(what, r_rest, model_whole if (not is_gz and p == len(member) - 1) else model, cut_logs)
             require(plain(r_rest.experiment) == plain(r_fresh.experiment), f"[{what}] experiment record differs from the fresh run",
                     fresh=r_fresh.experiment, restored=r_rest.experiment)
             try:
@@ -613,12 +619,18 @@ def gzcut(tier):
         for shape in CUT_SHAPES[:2]:
             for from_end in (1, 2):
                 yield dict(shape, sink="gz", restore=True, stamp=True, cut={"from_end": from_end, "mtime": 0x0A0A0A0A})
+        # a crash while the first record was written leaves nothing but a partial first record; plain files too
+        yield dict(CUT_SHAPES[0], sink="gz", restore=True, stamp=True, cut={"from_end": 0, "mtime": 0x0A0A0A0A})
+        yield dict(CUT_SHAPES[1], sink="plain", restore=True, stamp=True, cut={"from_end": 0, "mtime": 0})
+        yield dict(CUT_SHAPES[1], sink="plain", restore=True, stamp=True, cut={"from_end": 1, "mtime": 0})
+        yield dict(CUT_SHAPES[0], sink="plain", restore=True, stamp=True, cut={"from_end": 3, "mtime": 0})
     else:
         for shape in CUT_SHAPES:
             n_members = 2 + len(shape["envs"]) + len(shape["lrns"]) + len(shape["vals"]) + len(shape["triples"])
-            for from_end in range(1, n_members + 1):
+            for from_end in range(0, n_members):
                 for mtime in (0, 10, 0x0A0A0A0A, 0x12345678):
                     yield dict(shape, sink="gz", restore=True, stamp=True, cut={"from_end": from_end, "mtime": mtime})
+                yield dict(shape, sink="plain", restore=True, stamp=True, cut={"from_end": from_end, "mtime": 0})
 
 # ------------------------------------------------------------------------------------------------ evidence
 def _walk(v):
@@ -678,7 +690,7 @@ def classes(case):
     if "big" in case:
         return ["big:" + case["big"]["kind"], "sink=" + case["sink"]] + (["restored"] if case["restore"] else [])
     if "cut" in case:
-        return [f"cut-member-from-end={case['cut']['from_end']}", f"mtime=0x{case['cut']['mtime']:08x}", f"triples={len(case['triples'])}"]
+        return [f"cut-member-from-end={case['cut']['from_end']}" if case["cut"]["from_end"] else "cut-first-record", "sink=" + case["sink"], f"mtime=0x{case['cut']['mtime']:08x}", f"triples={len(case['triples'])}"]
     if "align" in case:
         return [f"aligned-member={case['align']['member']}", f"blocks={case['align'].get('blocks', 1)}", f"triples={len(case['triples'])}"]
     out = sorted(features(case))
@@ -715,7 +727,7 @@ SUBCHECKS = [
     Sub(name="longrows", run=run, enumerate=longrows, nontrivial=nontrivial, classes=classes, classify=classify, quick_shards=1, thorough_shards=8,
         what="one evaluation of 16385..40000 rows (thorough 1025..70000) whose fields first appear, disappear or occur only once late in the evaluation (around rows 2**9..2**16); no file, plain, .gz, restored: model + three-route oracle"),
     Sub(name="gzcut", run=run, enumerate=gzcut, nontrivial=nontrivial, classes=classes, classify=classify, quick_shards=2, thorough_shards=8,
-        what="restored run on a .gz log that was cut at EVERY byte offset inside one gzip member (quick: the last two members of two small logs, header mtime bytes 0x0a; thorough: every member of three logs x 4 mtimes): the run returns, completed evaluations keep the rows of the first run, the others come from the second run, from_file agrees (one case = one sweep of 70-300 restored runs)"),
+        what="restored run on a .gz or plain log that was cut at EVERY byte offset inside one gzip member / line (quick: the last two members of two small .gz logs with header mtime bytes 0x0a, the first record of a .gz and of a plain log, two more plain lines; thorough: every record of three logs, .gz x 4 mtimes and plain): the run returns, completed evaluations keep the rows of the first run, the others come from the second run, from_file agrees (one case = one sweep of 70-300 restored runs)"),
     Sub(name="gzalign", run=run, enumerate=gzalign, nontrivial=nontrivial, classes=classes, classify=classify, quick_shards=1, thorough_shards=4,
         what="restored run on a complete .gz file whose description is padded until a chosen non-final gzip member ends on a multiple of 4096 bytes; rows carry the number of the run that produced them, so a completed triple that is dropped and evaluated again changes the table (cases where no padding aligns the member are inconclusive)"),
 ]
